@@ -10,13 +10,23 @@ the hand-written model — are re-checked by `lake build`.
 The subset
   statements   : `x = e`, `a, b = e1, e2`, `q, r = divmod(a, b)`, `a, b = f(..)`, `x += e` (and -=, *=), `if/elif/else`,
                  `return e`, `return e1, e2`, `pass`, docstrings, `raise` (the branch becomes the function's error value,
-                 see `err`), `assert` is ignored.  No loops, no comprehensions, no attribute stores.
+                 see `err`), `assert` is ignored.  PyLite 2: `for x in <iterable>:` whose body only assigns (no return / break
+                 / continue) becomes a `List.foldl` over the iterable with the assigned outer variables as state;
+                 `xs[i] = v` on a list-typed local rebinds it (`setAt`); `x.pop(i)` as a statement.  No while loops, no
+                 attribute stores.
   expressions  : integer / float / bool literals, names, `self.attr` (becomes a parameter `self_attr`), + - * / // % **,
                  unary - and not, comparisons (chains), and/or, `a if c else b`, tuples, subscripts with literal index of a
                  tuple-typed name, calls of: isqrt, abs, max, min (2 arguments), pow(x, n), divmod, int (of an int), float,
                  np.maximum, np.minimum, np.abs, other functions of the same translation unit (by bare name, `Class.method`
                  or `self.method`), and enum member tests `self.attr == Enum.MEMBER` / `in (Enum.A, Enum.B)` (become Bool
                  parameters `self_attr_is_MEMBER`).
+  lists        : types `List Rat`, `List Int`, `List (..)`: list / tuple literals where a list is expected, `xs[i]` (negative
+                 indices too), `xs[a:]`, `xs[:b]`, `len`, `sum`, `np.sum`, `np.prod`, `math.prod`, `np.zeros(n)`, `np.insert`,
+                 `np.cumsum`, `np.searchsorted`, `list(..)`, `tuple(..)`, `np.array(..)` (identity), list comprehensions and
+                 generator expressions (one `for`, optional `if`s) over `range`, `zip`, `enumerate`,
+                 `product(xs, repeat=n)` or a list; function values: `partial(f, a, ..)`, a bare reference to a declared
+                 opaque callable, locals of function type; optional parameters (`opt:<type>`: `x is None` becomes a Bool
+                 parameter `x_none`), default values and keyword arguments in calls of functions of the same unit.
   recursion    : a function that calls itself is translated with a fuel argument (`partial` would hide it from proofs);
                  the fuel-free wrapper starts with the fuel given in the spec.
 Anything else raises `Untranslatable` with the source position: the source tie of that function is then *unavailable* (the
@@ -47,6 +57,64 @@ LEAN_KEYWORDS = {"at", "from", "have", "show", "fun", "end", "open", "in", "let"
                  "with", "by", "where", "local", "instance", "def", "theorem", "max", "min", "abs", "prefix", "infix",
                  "notation", "namespace", "section", "variable", "universe", "export", "import", "mutual", "structure",
                  "class", "inductive", "deriving", "macro", "syntax", "λ", "Type", "Prop", "Sort", "omega", "pi"}
+
+
+def is_list(t) -> bool:
+    return isinstance(t, str) and t.startswith("List ")
+
+
+def _strip_parens(t: str) -> str:
+    t = t.strip()
+    while t.startswith("(") and t.endswith(")"):
+        depth, ok = 0, True
+        for i, ch in enumerate(t):
+            depth += ch == "("
+            depth -= ch == ")"
+            if depth == 0 and i < len(t) - 1:
+                ok = False
+                break
+        if not ok:
+            break
+        t = t[1:-1].strip()
+    return t
+
+
+def elem_of(t: str) -> str:
+    return _strip_parens(t[5:])
+
+
+def atom(t: str) -> str:
+    return t if all(c.isalnum() or c == "_" for c in t) else f"({t})"
+
+
+def list_of(t: str) -> str:
+    return "List " + atom(t)
+
+
+def split_top(t: str, sep: str) -> list[str]:
+    """split a type at the top-level occurrences of `sep` (× or →)"""
+    out, depth, cur = [], 0, ""
+    for ch in t:
+        if ch == "(":
+            depth += 1
+        elif ch == ")":
+            depth -= 1
+        if ch == sep and depth == 0:
+            out.append(cur.strip())
+            cur = ""
+        else:
+            cur += ch
+    out.append(cur.strip())
+    return out
+
+
+class _Yield(ast.stmt):
+    """synthetic last statement of a loop body: the value of the body is the tuple of the state variables"""
+    _fields = ()
+
+    def __init__(self, names):
+        super().__init__()
+        self.names = names
 
 
 def lname(n: str) -> str:
@@ -93,6 +161,9 @@ class _Tr(ast.NodeVisitor):
         self.recursive = False
         self.tmp = 0
         self.alias: dict[str, str] = {}           # local name -> dotted object path it stands for (e.g. params -> self.parameters)
+        self.none_flag: dict[str, str] = {}       # optional parameter name -> Lean Bool term "it is None here"
+        self.state_types: list[str] | None = None  # inside a loop body: the types of the state variables (for _Yield)
+        self.yield_types: list[str] | None = None
 
     # ---- helpers -------------------------------------------------------------------------------------------------
     def bad(self, node, why):
@@ -113,7 +184,98 @@ class _Tr(ast.NodeVisitor):
             return f"(({s} : Int) : Rat)"
         if ty == BOOL and want in (INT, RAT, NUM):
             return f"(if {s} then 1 else 0)"
+        if is_list(ty) and is_list(want) and elem_of(ty) in (INT, NUM) and elem_of(want) == RAT:
+            return f"(Rpylib.Py.castList {s})"
+        if is_list(ty) and is_list(want) and elem_of(ty) == NUM:
+            return f"({s} : {want})"
         return s
+
+    def expr_as(self, e, want):
+        """translate `e` where a value of type `want` is expected: a tuple / list literal is a list when a list is wanted"""
+        if want and want.startswith("fn:"):
+            want = want[3:]
+        if want and is_list(want) and isinstance(e, (ast.Tuple, ast.List)):
+            et = elem_of(want)
+            parts = [self.expr_as(x, et) for x in e.elts]
+            return "[" + ", ".join(parts) + "]"
+        s, t = self.expr(e)
+        if t and t.startswith("fn:"):
+            return s
+        if t == NUM and want:
+            return f"({s} : {want})"
+        return self.coerce(s, t, want)
+
+    # ---- iterables: return (lean list term, element type) ----------------------------------------------------------
+    def iterable(self, e) -> tuple[str, str]:
+        if isinstance(e, ast.Call):
+            fd = _dotted(e.func)
+            if fd == "range" and 1 <= len(e.args) <= 2 and not e.keywords:
+                if len(e.args) == 1:
+                    lo, hi = "0", self.expr_as(e.args[0], INT)
+                else:
+                    lo, hi = self.expr_as(e.args[0], INT), self.expr_as(e.args[1], INT)
+                return f"(Rpylib.Py.range {lo} {hi})", INT
+            if fd == "zip" and len(e.args) >= 2 and not e.keywords:
+                parts = [self.iterable(a) for a in e.args]
+                term, ty = parts[-1]
+                for s_, t_ in reversed(parts[:-1]):
+                    term, ty = f"(List.zip {s_} {term})", f"{atom(t_)} × {ty}"
+                return term, ty
+            if fd == "enumerate" and len(e.args) == 1 and not e.keywords:
+                s_, t_ = self.iterable(e.args[0])
+                return f"(Rpylib.Py.enumerate {s_})", f"Int × {atom(t_) if '×' in t_ else t_}"
+            if fd in ("product", "itertools.product") and len(e.args) == 1 and len(e.keywords) == 1 \
+                    and e.keywords[0].arg == "repeat":
+                s_, t_ = self.iterable(e.args[0])
+                n = self.expr_as(e.keywords[0].value, INT)
+                return f"(Rpylib.Py.product {s_} (Int.toNat {n}))", list_of(t_)
+        if isinstance(e, (ast.List, ast.Tuple)):
+            parts = [self.expr(x) for x in e.elts]
+            tys = {t for _, t in parts}
+            et = RAT if RAT in tys else INT
+            if not tys <= {INT, RAT, NUM}:
+                self.bad(e, "literal list of non-numbers")
+            return "[" + ", ".join(self.coerce(s_, t_, et) if t_ != NUM else f"({s_} : {et})" for s_, t_ in parts) + "]", et
+        s_, t_ = self.expr(e)
+        if is_list(t_):
+            return s_, elem_of(t_)
+        self.bad(e, f"iteration over a value of type {t_}")
+
+    def bind_target(self, tgt, ty, tmp) -> list[str]:
+        """let-lines binding the names of a loop / comprehension target to the components of `tmp : ty` (updates env)"""
+        if isinstance(tgt, ast.Name):
+            self.env[tgt.id] = ty
+            return [f"let {lname(tgt.id)} : {ty} := {tmp}"]
+        if isinstance(tgt, (ast.Tuple, ast.List)):
+            tys = split_top(_strip_parens(ty), "×")
+            n = len(tgt.elts)
+            if len(tys) < n:
+                self.bad(tgt, f"cannot unpack a {ty} into {n} names")
+            if len(tys) > n:                      # right-nested product: the last name takes the rest
+                tys = tys[:n - 1] + [" × ".join(tys[n - 1:])]
+            lines = []
+            for i, (x, t_) in enumerate(zip(tgt.elts, tys)):
+                lines += self.bind_target(x, _strip_parens(t_), self.proj(tmp, i, n))
+            return lines
+        self.bad(tgt, "loop target")
+
+    def comprehension(self, e):
+        if len(e.generators) != 1 or e.generators[0].is_async:
+            self.bad(e, "comprehension with several generators")
+        g = e.generators[0]
+        it, et = self.iterable(g.iter)
+        saved = dict(self.env)
+        tmp = self.fresh("it")
+        lines = self.bind_target(g.target, et, tmp)
+        conds = [self.prop(c) for c in g.ifs]
+        body, bt = self.expr(e.elt)
+        if bt == NUM:
+            body, bt = f"({body} : Int)", INT
+        self.env = saved
+        binds = "; ".join(lines)
+        if conds:
+            it = f"(List.filter (fun ({tmp} : {et}) => {binds}; decide ({' ∧ '.join(conds)})) {it})"
+        return f"(List.map (fun ({tmp} : {et}) => {binds}; {body}) {it})", list_of(bt)
 
     def join_num(self, node, a, ta, b, tb):
         """common numeric type of two operands, with the coerced operand strings"""
@@ -164,6 +326,10 @@ class _Tr(ast.NodeVisitor):
                 dotted = self.alias[root] + "." + rest
             if dotted and dotted in self.fn.consts:
                 return self.fn.consts[dotted]
+            if dotted and dotted in self.fn.opaque_fns:         # a bare reference to a declared callable: a function value
+                nm, atys, rty = self.fn.opaque_fns[dotted]
+                self.add_param(nm, " → ".join(list(atys) + [rty]))
+                return nm, "fn:" + " → ".join(list(atys) + [rty])
             if dotted and dotted.startswith("self.") and dotted[5:] in self.fn.self_attrs and "." in dotted[5:]:
                 ty = self.fn.self_attrs[dotted[5:]]
                 nm = "self_" + dotted[5:].replace("._", "_").replace(".", "_").lstrip("_")
@@ -229,10 +395,15 @@ class _Tr(ast.NodeVisitor):
                 t = INT
                 a = f"({a} : Int)"
             return f"(if {c} then {a} else {b})", t
+        if isinstance(e, (ast.ListComp, ast.GeneratorExp)):
+            return self.comprehension(e)
+        if isinstance(e, ast.List):
+            s_, et = self.iterable(e)
+            return s_, list_of(et)
         if isinstance(e, ast.Tuple):
             parts = [self.expr(x) for x in e.elts]
             parts = [(f"({s} : Int)" if t == NUM else s, INT if t == NUM else t) for s, t in parts]
-            return "(" + ", ".join(s for s, _ in parts) + ")", " × ".join(t for _, t in parts)
+            return "(" + ", ".join(s for s, _ in parts) + ")", " × ".join(atom(t) for _, t in parts)
         if isinstance(e, ast.Subscript):
             if isinstance(e.value, ast.Name) and e.value.id in self.fn.opaque_index:
                 nm, ity, vty = self.fn.opaque_index[e.value.id]
@@ -241,13 +412,27 @@ class _Tr(ast.NodeVisitor):
                 return f"({nm} {self.coerce(si, ti, ity) if ti != NUM else '(' + si + ' : ' + ity + ')'})", vty
             if isinstance(e.value, ast.Name) and e.value.id in self.env and "×" in self.env[e.value.id] \
                     and isinstance(e.slice, ast.Constant) and isinstance(e.slice.value, int):
-                tys = [t.strip() for t in self.env[e.value.id].split("×")]
+                tys = [_strip_parens(t) for t in split_top(self.env[e.value.id], "×")]
                 i = e.slice.value
                 if i < 0:
                     i += len(tys)
                 if not 0 <= i < len(tys):
                     self.bad(e, "tuple index out of range")
                 return self.proj(lname(e.value.id), i, len(tys)), tys[i]
+            vs, vt = self.expr(e.value)
+            if is_list(vt):
+                if isinstance(e.slice, ast.Slice):
+                    if e.slice.step is not None:
+                        self.bad(e, "slice with a step")
+                    out = vs
+                    if e.slice.upper is not None:
+                        out = f"(Rpylib.Py.sliceTo {out} {self.expr_as(e.slice.upper, INT)})"
+                        if e.slice.lower is not None:
+                            self.bad(e, "slice with both bounds")
+                    if e.slice.lower is not None:
+                        out = f"(Rpylib.Py.sliceFrom {out} {self.expr_as(e.slice.lower, INT)})"
+                    return out, vt
+                return f"(Rpylib.Py.idx {vs} {self.expr_as(e.slice, INT)})", elem_of(vt)
             self.bad(e, "subscript")
         if isinstance(e, ast.Call):
             return self.call(e)
@@ -267,34 +452,33 @@ class _Tr(ast.NodeVisitor):
             nm, ty = self.fn.const_calls[key]
             self.add_param(nm, ty)
             return nm, ty
-        if e.keywords:
-            self.bad(e, "keyword arguments")
         f = e.func
         fdot = _dotted(f)
+        if fdot and fdot.split(".")[0] in self.alias:
+            fdot = self.alias[fdot.split(".")[0]] + fdot[len(fdot.split(".")[0]):]
+        lst = self.list_call(e, fdot)
+        if lst is not None:
+            return lst
+        if e.keywords and not self.unit_callee(e, fdot):
+            self.bad(e, "keyword arguments")
         if fdot in self.fn.fn_params and len(e.args) == 1:
             nm = self.fn.fn_params[fdot]
             self.add_param(nm, "Rat → Rat")
             s, t = self.expr(e.args[0])
             return f"({nm} {self.coerce(s, t, RAT) if t != NUM else '(' + s + ' : Rat)'})", RAT
         if isinstance(f, ast.Name) and self.env.get(f.id, "").startswith("fn:"):
-            tys = [t.strip() for t in self.env[f.id][3:].split("→")]
+            tys = split_top(self.env[f.id][3:], "→")
             atys, rty = tys[:-1], tys[-1]
             if len(e.args) != len(atys):
                 self.bad(e, f"call of {f.id} with {len(e.args)} arguments")
-            parts = []
-            for a, want in zip(e.args, atys):
-                s_, t_ = self.expr(a)
-                parts.append(self.coerce(s_, t_, want) if t_ != NUM else f"({s_} : {want})")
+            parts = [self.expr_as(a, want) for a, want in zip(e.args, atys)]
             return "(" + " ".join([lname(f.id)] + parts) + ")", rty
         if fdot in self.fn.opaque_fns:
             nm, atys, rty = self.fn.opaque_fns[fdot]
             if len(e.args) != len(atys):
                 self.bad(e, f"call of {fdot} with {len(e.args)} arguments")
             self.add_param(nm, " → ".join(list(atys) + [rty]))
-            parts = []
-            for a, want in zip(e.args, atys):
-                s, t = self.expr(a)
-                parts.append(self.coerce(s, t, want) if t != NUM else f"({s} : {want})")
+            parts = [self.expr_as(a, want) for a, want in zip(e.args, atys)]
             return "(" + " ".join([nm] + parts) + ")", rty
         name = None
         if isinstance(f, ast.Name):
@@ -308,7 +492,10 @@ class _Tr(ast.NodeVisitor):
                 name = f.value.id + "." + f.attr
         if name is None:
             self.bad(e, "call of a computed function")
-        args = [self.expr(a) for a in e.args]
+        if self.unit_callee(e, fdot):
+            args = []
+        else:
+            args = [self.expr(a) for a in e.args]
         if name in ("isqrt", "math.isqrt") and len(args) == 1:
             s, t = args[0]
             if t == RAT:
@@ -349,10 +536,30 @@ class _Tr(ast.NodeVisitor):
             if cand and cand in self.unit.fns:
                 callee = self.unit.fns[cand]
                 sig = _signature(self.unit, callee)
-                if len(args) != len(sig["py_params"]):
-                    self.bad(e, f"call of {cand} with {len(args)} arguments")
-                parts = [self.coerce(s, t, want) if t != NUM else f"({s} : {want})"
-                         for (s, t), (_, want) in zip(args, sig["py_params"])]
+                given = dict(zip([n for n, _ in sig["py_params"]], e.args))
+                if len(e.args) > len(sig["py_params"]):
+                    self.bad(e, f"call of {cand} with {len(e.args)} arguments")
+                for kw in e.keywords:
+                    if kw.arg is None or kw.arg in given or kw.arg not in dict(sig["py_params"]):
+                        self.bad(e, f"keyword argument {kw.arg} of {cand}")
+                    given[kw.arg] = kw.value
+                parts = []
+                for pn, want in sig["py_params"]:
+                    node_ = given.get(pn, sig["defaults"].get(pn))
+                    if node_ is None:
+                        self.bad(e, f"call of {cand}: no value for parameter {pn}")
+                    if want.startswith("opt:"):
+                        inner = want[4:]
+                        if isinstance(node_, ast.Constant) and node_.value is None:
+                            parts += [f"(default : {inner})", "true"]
+                        elif isinstance(node_, ast.Name) and node_.id in self.none_flag:
+                            parts += [self.expr_as(node_, inner), self.none_flag[node_.id]]
+                        else:
+                            parts += [self.expr_as(node_, inner), "false"]
+                    elif want == "obj":
+                        continue
+                    else:
+                        parts.append(self.expr_as(node_, want))
                 # the callee's self-attribute / enum parameters are passed through (must be declared for the caller too)
                 for nm, ty in sig["extra"]:
                     self.add_param(nm, ty)
@@ -372,6 +579,78 @@ class _Tr(ast.NodeVisitor):
                 head = callee.lean_name
                 return "(" + " ".join([head] + parts) + ")", sig["ret"]
         self.bad(e, f"call of {name}")
+
+    def unit_callee(self, e, fdot) -> bool:
+        f = e.func
+        name = None
+        if isinstance(f, ast.Name):
+            name = f.id
+        elif isinstance(f, ast.Attribute) and isinstance(f.value, ast.Name):
+            name = ((self.cls + ".") if (f.value.id == "self" and self.cls) else (f.value.id + ".")) + f.attr
+        return bool(name) and (name in self.unit.fns or (self.cls and "." not in name and self.cls + "." + name in self.unit.fns))
+
+    def list_call(self, e, fdot):
+        """built-ins on lists; None when `e` is not one of them"""
+        a, kw = e.args, {k.arg: k.value for k in e.keywords}
+        if fdot == "len" and len(a) == 1 and not kw:
+            s_, t_ = self.expr(a[0])
+            if is_list(t_):
+                return f"((List.length {s_} : Nat) : Int)", INT
+            self.bad(e, f"len of a {t_}")
+        if fdot in ("sum", "np.sum", "numpy.sum", "math.fsum") and len(a) == 1 and not kw:
+            s_, et = self.iterable(a[0])
+            if et == BOOL:
+                self.bad(e, "sum of booleans")
+            return f"(List.sum {s_})", et
+        if fdot in ("np.prod", "numpy.prod", "math.prod") and len(a) == 1 and not kw:
+            s_, et = self.iterable(a[0])
+            return (f"(Rpylib.Py.rprod {s_})", RAT) if et == RAT else (f"(Rpylib.Py.iprod {s_})", INT)
+        if fdot in ("np.zeros", "numpy.zeros") and len(a) + len([k for k in kw if k == "shape"]) == 1 and set(kw) <= {"shape", "dtype"}:
+            n = a[0] if a else kw["shape"]
+            return f"(Rpylib.Py.zeros {self.expr_as(n, INT)})", "List Rat"
+        if fdot in ("np.insert", "numpy.insert") and len(a) == 3 and not kw:
+            s_, t_ = self.expr(a[0])
+            if not is_list(t_):
+                self.bad(e, "np.insert into a non-list")
+            return f"(Rpylib.Py.insertAt {s_} {self.expr_as(a[1], INT)} {self.expr_as(a[2], elem_of(t_))})", t_
+        if fdot in ("np.cumsum", "numpy.cumsum") and len(a) == 1 and not kw:
+            s_, et = self.iterable(a[0])
+            return f"(Rpylib.Py.cumsum {self.coerce(s_, list_of(et), 'List Rat')})", "List Rat"
+        if fdot in ("np.searchsorted", "numpy.searchsorted") and len(a) == 2 and not kw:
+            s_, et = self.iterable(a[0])
+            return f"(Rpylib.Py.searchsorted {self.coerce(s_, list_of(et), 'List Rat')} {self.expr_as(a[1], RAT)})", INT
+        if fdot in ("list", "tuple", "np.array", "numpy.array", "np.asarray") and len(a) == 1 and not kw:
+            if not isinstance(a[0], (ast.List, ast.Tuple, ast.ListComp, ast.GeneratorExp)) and fdot.startswith("n"):
+                s0, t0 = self.expr(a[0])
+                if t0 in (INT, RAT, NUM):              # np.array(x) of a number is that number
+                    return s0, t0
+                if is_list(t0):
+                    return s0, t0
+            s_, et = self.iterable(a[0])
+            return s_, list_of(et)
+        if fdot in ("max", "min") and len(a) >= 3 and not kw:
+            parts = [self.expr(x) for x in a]
+            tys = {t for _, t in parts}
+            if not tys <= {INT, RAT, NUM}:
+                self.bad(e, f"{fdot} of non-numbers")
+            t_ = RAT if RAT in tys else INT
+            fnm = {(RAT, "max"): "Rpylib.Py.rmax", (RAT, "min"): "Rpylib.Py.rmin", (INT, "max"): "Rpylib.Py.imax",
+                   (INT, "min"): "Rpylib.Py.imin"}[(t_, fdot)]
+            cs = [self.coerce(s_, ty_, t_) if ty_ != NUM else f"({s_} : {t_})" for s_, ty_ in parts]
+            out = cs[0]
+            for c_ in cs[1:]:
+                out = f"({fnm} {out} {c_})"
+            return out, t_
+        if fdot in ("partial", "functools.partial") and len(a) >= 1 and not kw:
+            fs, ft = self.expr(a[0])
+            if not (ft and ft.startswith("fn:")):
+                self.bad(e, "partial of something that is not a declared function")
+            tys = split_top(ft[3:], "→")
+            if len(a) - 1 >= len(tys) - 1 + 1:
+                self.bad(e, "partial with too many arguments")
+            parts = [self.expr_as(x, want) for x, want in zip(a[1:], tys)]
+            return "(" + " ".join([fs] + parts) + ")", "fn:" + " → ".join(tys[len(a) - 1:])
+        return None
 
     # ---- conditions: return a Lean Prop string -------------------------------------------------------------------
     def as_bool(self, e) -> str:
@@ -413,6 +692,11 @@ class _Tr(ast.NodeVisitor):
         et = self.enum_test(e)
         if et is not None:
             return et
+        if isinstance(e, ast.Compare) and len(e.ops) == 1 and isinstance(e.ops[0], (ast.Is, ast.IsNot)) \
+                and isinstance(e.comparators[0], ast.Constant) and e.comparators[0].value is None \
+                and isinstance(e.left, ast.Name) and e.left.id in self.none_flag:
+            flag = self.none_flag[e.left.id]
+            return f"({flag} = true)" if isinstance(e.ops[0], ast.Is) else f"(¬ {flag} = true)"
         if isinstance(e, ast.Compare):
             parts = []
             left = e.left
@@ -486,36 +770,135 @@ class _Tr(ast.NodeVisitor):
                 v, t = self.expr(s.value)
                 if t == NUM:
                     v, t = f"({v} : Int)", INT
-                saved = dict(self.env)
+                saved, saved_flags = dict(self.env), dict(self.none_flag)
                 self.env[tgt.id] = t
+                if tgt.id in self.none_flag:
+                    self.none_flag[tgt.id] = "false"
                 body = self.block(rest, [])
-                self.env = saved
-                return f"let {lname(tgt.id)} : {t} := {v}\n{body}"
+                self.env, self.none_flag = saved, saved_flags
+                return f"let {lname(tgt.id)} : {t[3:] if t.startswith('fn:') else t} := {v}\n{body}"
             if isinstance(tgt, ast.Tuple) and all(isinstance(x, ast.Name) for x in tgt.elts):
                 v, t = self.expr(s.value)
-                tys = [x.strip() for x in t.split("×")]
-                if len(tys) != len(tgt.elts):
-                    self.bad(s, "tuple unpacking of a non-tuple")
                 tmp = self.fresh()
                 saved = dict(self.env)
                 lines = [f"let {tmp} : {t} := {v}"]
-                for i, (x, ty) in enumerate(zip(tgt.elts, tys)):
-                    lines.append(f"let {lname(x.id)} : {ty} := {self.proj(tmp, i, len(tys))}")
+                if is_list(t):                     # a1, a2 = a   (Python raises unless len(a) == 2: the domain is the caller's)
+                    tys = [elem_of(t)] * len(tgt.elts)
+                    for i, (x, ty) in enumerate(zip(tgt.elts, tys)):
+                        lines.append(f"let {lname(x.id)} : {ty} := (Rpylib.Py.idx {tmp} {i})")
+                else:
+                    tys = [_strip_parens(x) for x in split_top(t, "×")]
+                    if len(tys) != len(tgt.elts):
+                        self.bad(s, "tuple unpacking of a non-tuple")
+                    for i, (x, ty) in enumerate(zip(tgt.elts, tys)):
+                        lines.append(f"let {lname(x.id)} : {ty} := {self.proj(tmp, i, len(tys))}")
                 for x, ty in zip(tgt.elts, tys):
                     self.env[x.id] = ty
                 body = self.block(rest, [])
                 self.env = saved
                 return "\n".join(lines) + "\n" + body
+            if isinstance(tgt, ast.Subscript) and isinstance(tgt.value, ast.Name) and is_list(self.env.get(tgt.value.id, "")) \
+                    and not isinstance(tgt.slice, ast.Slice):
+                lt = self.env[tgt.value.id]
+                new = f"(Rpylib.Py.setAt {lname(tgt.value.id)} {self.expr_as(tgt.slice, INT)} {self.expr_as(s.value, elem_of(lt))})"
+                body = self.block(rest, [])
+                return f"let {lname(tgt.value.id)} : {lt} := {new}\n{body}"
             self.bad(s, "assignment target")
+        if isinstance(s, ast.Expr) and isinstance(s.value, ast.Call) and isinstance(s.value.func, ast.Attribute) \
+                and s.value.func.attr == "pop" and isinstance(s.value.func.value, ast.Name) \
+                and is_list(self.env.get(s.value.func.value.id, "")) and len(s.value.args) == 1 and not s.value.keywords:
+            nm = s.value.func.value.id
+            body = self.block(rest, [])
+            return f"let {lname(nm)} : {self.env[nm]} := (Rpylib.Py.popAt {lname(nm)} {self.expr_as(s.value.args[0], INT)})\n{body}"
+        if isinstance(s, _Yield):
+            vals = []
+            now = [self.env[n] for n in s.names]
+            if self.yield_types is None:
+                self.yield_types = now
+            else:                                   # several paths reach the end of the body: join their types
+                self.yield_types = [a_ if a_ == b_ else (RAT if {a_, b_} == {INT, RAT} else f"{a_}|{b_}")
+                                    for a_, b_ in zip(self.yield_types, now)]
+            for n, want in zip(s.names, self.state_types):
+                vals.append(self.coerce(lname(n), self.env[n], want))
+            return "(" + ", ".join(vals) + ")" if len(vals) != 1 else vals[0]
+        if isinstance(s, ast.For):
+            return self.for_loop(s, rest)
         if isinstance(s, ast.If):
             c = self.prop(s.test)
-            saved = dict(self.env)
+            saved, saved_flags = dict(self.env), dict(self.none_flag)
             a = self.block(s.body, rest)
-            self.env = dict(saved)
+            self.env, self.none_flag = dict(saved), dict(saved_flags)
             b = self.block(s.orelse, rest)
-            self.env = saved
+            self.env, self.none_flag = saved, saved_flags
             return f"if {c} then\n{textwrap.indent(a, '  ')}\nelse\n{textwrap.indent(b, '  ')}"
         self.bad(s, f"statement {type(s).__name__}")
+
+    def for_loop(self, s: ast.For, rest) -> str:
+        if s.orelse:
+            self.bad(s, "for ... else")
+        for n in ast.walk(s):
+            if isinstance(n, (ast.Return, ast.Break, ast.Continue, ast.While, ast.Raise)):
+                self.bad(n, f"{type(n).__name__} inside a for loop")
+        assigned = []
+        for n in ast.walk(s):
+            tg = []
+            if isinstance(n, ast.Assign):
+                tg = n.targets
+            elif isinstance(n, (ast.AugAssign, ast.AnnAssign)):
+                tg = [n.target]
+            elif isinstance(n, ast.Expr) and isinstance(n.value, ast.Call) and isinstance(n.value.func, ast.Attribute) \
+                    and n.value.func.attr == "pop" and isinstance(n.value.func.value, ast.Name):
+                tg = [n.value.func.value]
+            for t_ in tg:
+                for x in ast.walk(t_):
+                    if isinstance(x, ast.Name) and x.id not in assigned:
+                        assigned.append(x.id)
+        state = [n for n in assigned if n in self.env]           # outer variables the body rebinds; the others are loop-local
+        if not state:
+            self.bad(s, "for loop that assigns no outer variable")
+        it, et = self.iterable(s.iter)
+        types = [self.env[n] for n in state]
+        saved_outer = (dict(self.env), self.state_types, self.yield_types, dict(self.none_flag))
+        body = None
+        for _attempt in range(3):
+            self.env = dict(saved_outer[0])
+            for n, t_ in zip(state, types):
+                self.env[n] = t_
+            self.state_types = list(types)
+            self.yield_types = None
+            tmp, st = self.fresh("x"), self.fresh("st")
+            lines = [f"let {lname(n)} : {t_} := {self.proj(st, i, len(state)) if len(state) > 1 else st}"
+                     for i, (n, t_) in enumerate(zip(state, types))]
+            lines += self.bind_target(s.target, et, tmp)
+            inner = self.block(list(s.body) + [_Yield(state)], [])
+            got = self.yield_types
+            if got == types:
+                body = "\n".join(lines) + "\n" + inner
+                break
+            new = []
+            for a_, b_ in zip(types, got):
+                if a_ == b_:
+                    new.append(a_)
+                elif {a_, b_} == {INT, RAT}:
+                    new.append(RAT)
+                else:
+                    self.bad(s, f"a loop variable changes its type from {a_} to {b_}")
+            types = new
+        if body is None:
+            self.bad(s, "the types of the loop variables do not stabilise")
+        self.env, self.state_types, self.yield_types, self.none_flag = saved_outer[0], saved_outer[1], saved_outer[2], saved_outer[3]
+        sty = " × ".join(atom(t_) for t_ in types)
+        init = ", ".join(self.coerce(lname(n), self.env[n], t_) for n, t_ in zip(state, types))
+        init = f"({init})" if len(state) > 1 else init
+        res = self.fresh("loop")
+        out = [f"let {res} : {sty} := List.foldl (fun ({st} : {sty}) ({tmp} : {et}) =>\n{textwrap.indent(body, '    ')}) {init} {it}"]
+        saved = dict(self.env)
+        for i, (n, t_) in enumerate(zip(state, types)):
+            out.append(f"let {lname(n)} : {t_} := {self.proj(res, i, len(state)) if len(state) > 1 else res}")
+            self.env[n] = t_
+        tail = self.block(rest, [])
+        self.env = saved
+        return "\n".join(out) + "\n" + tail
 
     def ret_coerce(self, node, v, t):
         want = self.fn.ret
@@ -601,16 +984,19 @@ def _signature(unit: Unit, fn: Fn):
         if ty is None:
             raise Untranslatable(f"{unit.path}:{node.lineno}: {fn.qualname}: parameter {p.arg} has no declared type")
         params.append((p.arg, ty))
+    names_ = [p.arg for p in a.args]
+    defaults = dict(zip(names_[len(names_) - len(a.defaults):], a.defaults))
     ret = fn.ret
     if ret is None and isinstance(node.returns, ast.Name):
         ret = _ANN.get(node.returns.id)
     if ret is None:
         raise Untranslatable(f"{unit.path}:{node.lineno}: {fn.qualname}: return type not declared")
-    sig = {"py_params": params, "ret": ret, "extra": [], "node": node, "cls": cls}
+    sig = {"py_params": params, "ret": ret, "extra": [], "node": node, "cls": cls, "defaults": defaults}
     _sig_cache[key] = sig
     # translate the body once to discover the extra parameters (self attributes, enum tests)
     tr = _Tr(unit, fn, node, cls)
-    tr.env = {n: t for n, t in params}
+    tr.env = {n: (t[4:] if t.startswith("opt:") else t) for n, t in params}
+    tr.none_flag = {n: lname(n) + "_none" for n, t in params if t.startswith("opt:")}
     saved_ret = fn.ret
     fn.ret = ret
     try:
@@ -633,6 +1019,14 @@ def _signature(unit: Unit, fn: Fn):
     return sig
 
 
+def _binder(n, t):
+    if t.startswith("fn:"):
+        return f"({lname(n)} : {t[3:]})"
+    if t.startswith("opt:"):
+        return f"({lname(n)} : {t[4:]}) ({lname(n)}_none : Bool)"
+    return f"({lname(n)} : {t})"
+
+
 def translate_unit(repo_root, unit: Unit, namespace: str):
     """Return (lean_text_of_definitions, report).  report[qualname] = "ok" | reason why it is untranslatable."""
     import pathlib
@@ -650,7 +1044,7 @@ def translate_unit(repo_root, unit: Unit, namespace: str):
             report[q] = f"{unit.path}: {q}: translator recursion limit"
             continue
         node = sig["node"]
-        binders = " ".join(f"({lname(n)} : {t[3:] if t.startswith('fn:') else t})" for n, t in sig["py_params"] if t != "obj")
+        binders = " ".join(_binder(n, t) for n, t in sig["py_params"] if t != "obj")
         extra = " ".join(f"({n} : {t})" for n, t in sig["extra"])
         binders = (binders + " " + extra).strip()
         doc = f"/-- {unit.path}:{node.lineno}-{node.end_lineno} `{q}` (translated from the source by harness/py2lean.py) -/"
@@ -662,7 +1056,8 @@ def translate_unit(repo_root, unit: Unit, namespace: str):
             inner = textwrap.indent(sig["body"], "    ")
             out.append(f"{doc}\ndef {fn.lean_name}_fuel (fuel : Nat) {binders} : {sig['ret']} :=\n  match fuel with\n"
                        f"  | 0 => {fn.err}\n  | fuel + 1 =>\n{inner}\n")
-            names = " ".join([lname(n) for n, t in sig["py_params"] if t != "obj"] + [n for n, _ in sig["extra"]])
+            names = " ".join([lname(n) + (f" {lname(n)}_none" if t.startswith("opt:") else "")
+                              for n, t in sig["py_params"] if t != "obj"] + [n for n, _ in sig["extra"]])
             out.append(f"def {fn.lean_name} {binders} : {sig['ret']} := {fn.lean_name}_fuel ({fn.fuel}) {names}\n")
         else:
             out.append(f"{doc}\ndef {fn.lean_name} {binders} : {sig['ret']} :=\n{body}\n")
